@@ -88,8 +88,34 @@ def is_sorted(I, args, kw):
     return adjacent(I, [L, Builtin("lex_le", lambda I, a, k: le(a[0], a[1]))], {})
 
 
+def insert_at(I, args, kw):
+    L, i, x = args
+    items = I.try_iter_concrete(L)
+    if items is not None and isinstance(i, int):
+        return I.new_list(items[:i] + [x] + items[i:])
+    return I.new_alist(listops.InsertAt(I, L.term, i, x))
+
+
 def first_index(I, args, kw):
     L, p = args
+    if isinstance(L, bm.LazySeq) and L.kind == "range" and L.concrete_items(I) is None:
+        # first k in 0..n-1 with p(k): an index-space search
+        from .loops import IndexSpace
+        n = L.parts[0] if len(L.parts) == 1 else None
+        if n is None:
+            raise Unsupported("first_index over a general range")
+        sp = IndexSpace(I, n, 0)
+        b, m = listops.exists_in(I, sp, lambda e, i: _pure_call(I, p, i), "first_index")
+        k = m.idx
+        def before(elem, idx):
+            def ev():
+                return z3.Implies(idx < k, z3.Not(_pure_call(I, p, idx)))
+            try:
+                return ev()
+            except Unsupported:
+                return I.ctx.eval_under(z3.And(idx >= 0, idx < sp.length()), ev)
+        sp.all_facts.append((b, before, "first-index"))
+        return z3.If(b, k, z3.IntVal(-1))
     items = I.try_iter_concrete(L)
     if items is not None:
         for i, e in enumerate(items):
@@ -133,6 +159,7 @@ def subset(I, args, kw):
 INTRINSICS = {
     "spec.prims.subset": subset,
     "spec.prims.first_index": first_index,
+    "spec.prims.insert_at": insert_at,
     "spec.prims.remove_at": remove_at,
     "spec.prims.forall": forall,
     "spec.prims.exists": exists,
